@@ -344,6 +344,9 @@ func genPT(r *Rand, used map[uint8]bool, collide bool) uint8 {
 		default:
 			p = uint8(r.Range(96, 127))
 		}
+		if p == 0 || p == 8 || p == 9 {
+			continue // static payload types: pion/sdp does not let an rtpmap rename them
+		}
 		if collide || !used[p] {
 			used[p] = true
 			return p
@@ -363,8 +366,11 @@ func genLocalTable(r *Rand, kind string, maxPrim int) []cdc {
 	for i := 0; i < n; i++ {
 		f := Pick(r, fams)
 		c := cdc{Mime: kind + "/" + f.name, Clock: f.clock, Ch: f.ch, Line: Pick(r, f.lines), PT: genPT(r, used, r.Chance(1, 25))}
-		if r.Chance(1, 8) {
-			c.Mime = flipCase(r, c.Mime)
+		if r.Chance(1, 8) { // letter case of the subtype; of the "video/" prefix only rarely
+			c.Mime = kind + "/" + flipCase(r, f.name)
+			if r.Chance(1, 6) {
+				c.Mime = flipCase(r, c.Mime)
+			}
 		}
 		if r.Chance(1, 10) {
 			c.Clock = 0
